@@ -1,22 +1,34 @@
 #!/bin/bash
 # coverage.sh [IDs...] — which statements of go-pipeline do the quick checks execute? (diagnostic, not a check)
-# Builds vcheck with -cover for the repository packages (through the same overlay), runs the quick tier of each
-# check with GOCOVERDIR, merges, and prints per-function coverage plus the uncovered blocks.
+# `go build -cover` ignores -overlay, so the overlay is materialised in a scratch copy of /repo under /tmp
+# (removed afterwards); vcheck is built with -cover against that copy and each quick tier is run with GOCOVERDIR.
 set -u
 export GOFLAGS=-mod=mod GOPROXY=off GOSUMDB=off GOTOOLCHAIN=local
 V=$(cd "$(dirname "$0")" && pwd); export VERIF_DIR=$V
-W=$V/.work/cover.$$; mkdir -p $W/data
+W=/tmp/verifcover.$$; mkdir -p $W/data
+trap 'rm -rf $W' EXIT
+cp -r /repo $W/repo && rm -rf $W/repo/.git
 cd $V/harness
 go run ./cmd/instr -repo /repo -out $W/ov -seam $V/harness/seamsrc >/dev/null || exit 2
-go build -cover -coverpkg=github.com/buildkite/go-pipeline,github.com/buildkite/go-pipeline/ordered,github.com/buildkite/go-pipeline/signature,github.com/buildkite/go-pipeline/jwkutil,github.com/buildkite/go-pipeline/warning,github.com/buildkite/go-pipeline/internal/env -tags verif -overlay $W/ov/overlay.json -o $W/vcheck ./cmd/vcheck || exit 2
+python3 - $W <<'PY'
+import json,sys,os,shutil
+W=sys.argv[1]
+ov=json.load(open(W+'/ov/overlay.json'))['Replace']
+for dst,src in ov.items():
+    t=W+'/repo'+dst[len('/repo'):]
+    os.makedirs(os.path.dirname(t),exist_ok=True)
+    shutil.copy(src,t)
+PY
+sed "s#=> /repo#=> $W/repo#" go.mod > $W/go.mod; cp go.sum $W/go.sum
+PK=github.com/buildkite/go-pipeline
+go build -modfile=$W/go.mod -cover -coverpkg=all -tags verif -o $W/vcheck ./cmd/vcheck || exit 2
 IDS="$@"; [ -z "$IDS" ] && IDS="C01 C02 C03 C04 C05 C06 C07 C08 C09 C10 C11 C12 C13 C14 C15 C16 C17 C18"
 rm -rf $V/.work/evsave; cp -r $V/evidence $V/.work/evsave
-for id in $IDS; do GOCOVERDIR=$W/data VERIF_SOFT_DEADLINE_S=120 $W/vcheck $id quick > $W/$id.log 2>&1; tail -1 $W/$id.log | cut -c1-120; done
-rm -rf $V/evidence; mv $V/.work/evsave $V/evidence
+for id in $IDS; do GOCOVERDIR=$W/data VERIF_SOFT_DEADLINE_S=120 $W/vcheck $id quick > $W/$id.log 2>&1; tail -1 $W/$id.log | cut -c1-110; done
+rm -rf $V/evidence; mv $V/.work/evsave $V/evidence; rm -rf $V/replays/*/quick-* 2>/dev/null
 go tool covdata textfmt -i=$W/data -o $W/cover.txt
-# map overlay file names back: profile lines are /repo/... (overlay keeps original paths)
-go tool cover -func=$W/cover.txt > $V/.work/coverage_func.txt 2>/dev/null || go tool covdata func -i=$W/data > $V/.work/coverage_func.txt
-grep -v "100.0%" $V/.work/coverage_func.txt | tail -60
-awk -F'[: ,]' 'NR>1 && $NF==0 {print $1":"$2}' $W/cover.txt | sort -u > $V/.work/uncovered_blocks.txt
-wc -l $V/.work/uncovered_blocks.txt
-rm -rf $W
+( head -1 $W/cover.txt; grep "^github.com/buildkite/go-pipeline/" $W/cover.txt | grep -v "verifseam\|verifexport\|zz_verif" ) > $W/cover2.txt
+( cd $W/repo && go tool cover -func=$W/cover2.txt ) > $V/.work/coverage_func.txt 2>&1
+grep -v "100.0%" $V/.work/coverage_func.txt | tail -50
+awk -F'[ ]' 'NR>1 && $NF==0 {print $1}' $W/cover2.txt | sort -u > $V/.work/uncovered_blocks.txt
+echo "uncovered blocks: $(wc -l < $V/.work/uncovered_blocks.txt)"
